@@ -265,4 +265,39 @@ theorem backward_entry_covers (st : Selector.ChkSt) (pIdx q : Nat) (h1 : st.minP
 
 example : Selector.checkReduce ⟨2, 7, 10⟩ 4294967295 = (7, true) ∧ Selector.checkReduce ⟨2, 4294967295, 10⟩ 4294967295 = (9, true) := by decide
 
+
+/-- **late_notification_after_rebuild_is_skipped** (fix 817f0cf, was finding F-C02-901): one-sided obligation on the regenerated
+facts — `onWrite` decides "late" by `Recs` as it was before the notification, `rebuildIndex` raises `Recs` to what it scanned — and
+the former counterexample on the repaired branch: B's notification after the rebuild leaves the rebuilt tree alone and the
+look-up for 1610 answers 750. (Since 3e8b3c3 `Service.Write` also serialises the writers of a partition, so the reordering is
+no longer reachable through it; the index-level statement stands on its own.) -/
+theorem late_notification_after_rebuild_is_skipped :
+    Generated.C02.onWriteLateByRecs = true ∧ Generated.C02.rebuildRaisesRecs = true ∧
+    (let w (s : CIndex.St) (a b : Nat) : CIndex.St := (CIndex.onWrite s a b 1 (1000 + a) (1000 + b)).1
+     let s2 := CIndex.rebuild (w (w {} 0 299) 600 899) 1 ((List.range 900).map (fun (q : Nat) => (1000 : Int) + q))
+     CIndex.points (w s2 300 599) 1 = "1000:0,1000:0,1249:250,1499:500,1749:750,1899:900" ∧
+     CIndex.lessAns (w s2 300 599) 1 1610 = .ok 750) := by
+  refine ⟨by decide, by decide, by decide +kernel⟩
+
+
+/-! ## lightFill scans every record (fix 3cb83a3, was the second half of finding #4) -/
+
+/-- a journal of one chunk the index does not know, holding 1005, 1100, 1001, 1007 (the crash-image witness of the former
+finding: first/last record give [1005, 1007]) -/
+def unknownChunkSt : RangedIter.St := { cks := #[⟨10, 4⟩], tss := #[#[1005, 1100, 1001, 1007]], cidx := {} }
+
+/-- **lightFill_hull_covers_all_records** (fix 3cb83a3): obligation on the regenerated fact — `lightFill` reads EVERY record of a
+chunk the index does not know —, the hull it derives contains every record whatever their order (minimum / maximum fold),
+and the former witness on the repaired branch: the chunk 1005, 1100, 1001, 1007 gets the hull [1001, 1100] with `Recs = 4`, so
+`RANGE [1100:1100]` no longer excludes it. With this, every way a chunk's hull comes about (`onWrite`: merge of exact batch
+hulls; `rebuildIndex`: scan; `lightFill`: scan) is exact or over-wide on ANY data: a loss behind a too narrow hull is never the
+open finding #4 (driver field `hullbad`). -/
+theorem lightFill_hull_covers_all_records :
+    Generated.C02.lightFillScansAllRecords = true ∧
+    (∀ (a : Int) (l : List Int), ∀ x ∈ a :: l, (a :: l).foldl min a ≤ x ∧ x ≤ (a :: l).foldl max a) ∧
+    (RangedIter.syncChunks unknownChunkSt).cidx.chunks.map (fun c => (c.id, c.minTs, c.maxTs, c.recs)) = [(1, 1001, 1100, 4)] := by
+  refine ⟨by decide, ?_, by decide⟩
+  intro a l x hx
+  exact ⟨(PipeHist.foldl_min_le (a :: l) a).2 x hx, (PipeHist.le_foldl_max (a :: l) a).2 x hx⟩
+
 end Logrange.Props.C02Pipe
